@@ -60,6 +60,27 @@ def _root_locals(body, operand):
     return out
 
 
+def _bool_polarity(body, operand, depth=6):
+    """+1 if the switch operand is the source boolean, -1 if an odd number of `!` lie between them (single-definition chain)"""
+    pol = +1
+    o = operand
+    for _ in range(depth):
+        if o[0] not in ('copy', 'move') or o[1][1]:
+            break
+        ds = [d for d in body.defs(o[1][0]) if d[1] != 't']
+        if len(ds) != 1:
+            break
+        rv = ds[0][3]
+        if rv[0] == 'un' and rv[1] == 'Not':
+            pol = -pol
+            o = rv[2]
+        elif rv[0] == 'use':
+            o = rv[1]
+        else:
+            break
+    return pol
+
+
 def run(ctx):
     R = ctx.report
     ws = ctx.ws
@@ -73,59 +94,58 @@ def run(ctx):
     ctx.only_constructors('a', VD, [(DVD + '*', 'the verifying download')], 'VerifiedDigests is built only by download_and_verify_digests')
     MM = 'mithril_common::messages::certificate::CertificateMessage::match_message'
     ctx.r1('a', DVD, Sink('CertificateMessage::match_message', MM, 'ok'))
-    chk = [f for f, _ in ws.callers_of(MM) if f.unit.crate == 'mithril_client' and 'proving' in f.name]
-    for f in {x.root().name: x.root() for x in chk}.values():
-        # message part CardanoDatabaseMerkleRoot <- merkle_root parameter
-        sets = [c for c in f.body.calls() if any(glob_match('*ProtocolMessage::set_message_part', n) for n in c.names())]
-        ok = False
-        for c in sets:
-            k = fn_origins(f, c.args[1], True)
-            v = fn_origins(f, c.args[2], True)
-            if has(k, 'adt:*ProtocolMessagePartKey::CardanoDatabaseMerkleRoot') and has(v, 'p#2'):
-                ok = True
-        mm = [c for c in f.body.calls() if any(glob_match(MM, n) for n in c.names())]
-        ok2 = all(has(fn_origins(f, c.args[0], True), 'p#1') for c in mm) and bool(mm)
-        if ok and ok2:
-            R.ok('a', 'R5', '%s: compared message = certificate message with CardanoDatabaseMerkleRoot <- merkle_root' % fn_short(f.name), '', f.loc())
-        else:
-            R.violation('a', 'R5', '%s: compared message = certificate message with CardanoDatabaseMerkleRoot <- merkle_root' % fn_short(f.name),
-                        'match_message:root-part', 'part set from the root parameter: %s; matched against the certificate: %s' % (ok, ok2), f.loc())
-        ctx.arg_origin('a', DVD, f.name, 1, require=['call:*MKTree::compute_root', 'call:*MKTree::new'], desc='(root) <- MKTree::new(filtered digests).compute_root()')
-        ctx.arg_origin('a', DVD, f.name, 0, require=['p#2'], desc='(certificate) <- certificate')
-    ctx.arg_origin('a', DVD, 'mithril_merkle_tree::merkle_tree::MKTree::new', 0, require=['call:*InternalArtifactProver::read_digest_file'],
-                   desc='(leaves) <- downloaded digest file')
+    # what is compared with the certificate: the certificate's own message with the CardanoDatabaseMerkleRoot part replaced by the
+    # root of the tree rebuilt from the downloaded digest list - wherever these steps sit under download_and_verify_digests
+    SETP = '*ProtocolMessage::set_message_part'
+    RDF = '*InternalArtifactProver::read_digest_file'
+    MKNEW = 'mithril_merkle_tree::merkle_tree::MKTree::new'
+    ctx.sink_arg('a', DVD, SETP, 1, require=['adt:*ProtocolMessagePartKey::CardanoDatabaseMerkleRoot'], desc='(part key) = CardanoDatabaseMerkleRoot')
+    ctx.sink_arg('a', DVD, SETP, 2, require=['call:*MKTree::compute_root', 'call:*MKTree::new'],
+                 desc='(part value) <- MKTree::new(filtered downloaded digests).compute_root()')
+    ctx.sink_arg('a', DVD, MM, 0, require=['pty:CertificateMessage'], desc='(self) <- the certificate given to the verifying download')
+    # the message compared is the very message whose root part was replaced (set_message_part mutates it in place)
+    inst = 'download_and_verify_digests ..> the message matched against the certificate is the one carrying the recomputed root'
+    mms = ctx.closure_sites(DVD, [MM])
+    good = bool(mms)
+    for g, c in mms:
+        sets = [c2 for c2 in g.body.calls() if any(glob_match(SETP, n) for n in c2.names())]
+        if not any(_root_locals(g.body, c2.args[0]) & _root_locals(g.body, c.args[1]) for c2 in sets):
+            good = False
+    if good:
+        R.ok('a', 'R5', inst, '%d match_message site(s)' % len(mms))
+    else:
+        R.violation('a', 'R5', inst, 'match_message:same-message', 'match_message is not given the message whose CardanoDatabaseMerkleRoot part was set', None)
+    ctx.sink_arg('a', DVD, MKNEW, 0, require_via=[RDF], desc='(leaves) <- the downloaded digest file')
     f = ctx.try_fn('a', DVD)
     if f is not None:
-        lf = f.logic()
-        ok = False
-        for b in lf.body.blocks:
-            for (_, pl, rv) in b.stmts:
-                if rv[0] == 'agg' and rv[2] == VD:
-                    o0 = fn_origins(lf, rv[5][0], True)
-                    o1 = fn_origins(lf, rv[5][1], True)
-                    ok = has(o0, 'call:*read_digest_file') and has(o1, 'call:*MKTree::new')
+        sites = ctx.closure_aggs(DVD, VD)
+        ok = bool(sites)
+        for g, rv, ln in sites:
+            o0 = ctx.deep(DVD, g, rv[5][0])
+            o1 = ctx.deep(DVD, g, rv[5][1])
+            ok = ok and ctx.via_sink(o0, RDF) and has(o1, 'call:*MKTree::new')
         if ok:
-            R.ok('a', 'R5', 'download_and_verify_digests: the returned map and tree are the checked ones', '', f.loc())
+            R.ok('a', 'R5', 'download_and_verify_digests: the returned map and tree are the checked ones', '%d construction site(s)' % len(sites), f.loc())
         else:
             R.violation('a', 'R5', 'download_and_verify_digests: the returned map and tree are the checked ones', 'verified_digests:fields',
                         'VerifiedDigests fields do not derive from the downloaded digests / the checked tree', f.loc())
 
     # the returned name->digest map is the very map whose values built the checked tree (no re-keying)
     if f is not None:
-        lf = f.logic()
-        body0 = lf.body
-        vals = [c for c in body0.calls() if any(glob_match('std::collections::btree::map::BTreeMap::values', n) or
-                                               glob_match('std::collections::btree::map::BTreeMap::iter', n) for n in c.names())]
-        roots_tree = set()
-        for c in vals:
-            roots_tree |= _root_locals(body0, c.args[0])
-        roots_ret = set()
-        for b in body0.blocks:
-            for (_, pl, rv) in b.stmts:
-                if rv[0] == 'agg' and rv[2] == VD:
-                    roots_ret |= _root_locals(body0, rv[5][0])
+        sites = ctx.closure_aggs(DVD, VD)
         inst = 'download_and_verify_digests: the returned digest map is the map whose values were certified (same keys)'
-        if roots_tree and roots_ret and roots_ret <= roots_tree:
+        good = bool(sites)
+        for g, rv, ln in sites:
+            body0 = g.body
+            vals = [c for c in body0.calls() if any(glob_match('std::collections::btree::map::BTreeMap::values', n) or
+                                                   glob_match('std::collections::btree::map::BTreeMap::iter', n) for n in c.names())]
+            roots_tree = set()
+            for c in vals:
+                roots_tree |= _root_locals(body0, c.args[0])
+            roots_ret = _root_locals(body0, rv[5][0])
+            if not (roots_tree and roots_ret and roots_ret <= roots_tree):
+                good = False
+        if good:
             R.ok('a', 'R5', inst, '', f.loc())
         else:
             R.violation('a', 'R5', inst, 'verified_digests:same-map', 'the returned map is rebuilt (re-keyed) after the tree was computed: the names that '
@@ -220,7 +240,9 @@ def run(ctx):
     for bi, t in gs:
         if t[1][0] in ('copy', 'move') and has(fn_origins(lv, t[1], False), 'p#5'):
             from engine import switch_edges
-            su, fa = switch_edges(bi, t, 'bool', +1)
+            # the test may be on the flag itself or on its negation kept in a local (`let must_check = !allow_missing`)
+            pol = _bool_polarity(body, t[1])
+            su, fa = switch_edges(bi, t, 'bool', pol)
             allow_edges |= su
     inst = 'verify_cardano_database: the missing list is computed unless allow_missing'
     if not lm or not allow_edges:
@@ -246,8 +268,23 @@ def run(ctx):
         for c in gets:
             if has(fn_origins(ln, c.args[0], True), 'pty:VerifiedDigests.digests') and has(fn_origins(ln, c.args[1], True), 'p#2'):
                 ok = True
-        gs2 = [g for g in find_guards(b2) if g.op in ('Ne', 'Eq') and has(g.a_orig | g.b_orig, 'call:std::collections::btree::map::BTreeMap::get')
-               and has(g.a_orig | g.b_orig, 'p#2')]
+        # the comparison may sit in the loop body or in a closure applied to the looked-up value (`get(name).map(|v| v == digest)`)
+        gs2 = [g for h in ln.family() for g in find_guards(h.body) if g.op in ('Ne', 'Eq')
+               and has(g.a_orig | g.b_orig, 'call:std::collections::btree::map::BTreeMap::get') and has(g.a_orig | g.b_orig, 'p#2')]
+        if not gs2:
+            from engine import origins as _or
+            for h in ln.family():
+                for bb in h.body.blocks:
+                    for (_ln, pl, rv) in bb.stmts:
+                        if rv[0] == 'bin' and rv[1] in ('Eq', 'Ne'):
+                            oo = fn_origins(h, rv[2], True) | fn_origins(h, rv[3], True)
+                            if has(oo, 'call:std::collections::btree::map::BTreeMap::get') and has(oo, 'p#2'):
+                                gs2.append(rv)
+                for c in h.body.calls():
+                    if any(glob_match('*PartialEq*::eq', n) or glob_match('*PartialEq*::ne', n) for n in c.names()) and len(c.args) == 2:
+                        oo = fn_origins(h, c.args[0], True) | fn_origins(h, c.args[1], True)
+                        if has(oo, 'call:std::collections::btree::map::BTreeMap::get') and has(oo, 'p#2'):
+                            gs2.append(c)
         if ok and gs2:
             R.ok('d', 'R6', 'list_immutable_files_not_verified: digests.get(file name) compared with the computed digest', '', ln.loc())
         else:
